@@ -1,7 +1,8 @@
 /-
   Model of gocql's host selection policies (policies.go):
     cowHostList (add / remove), roundRobbin(shift, layers...), roundRobinHostPolicy, dcAwareRR,
-    rackAwareRR, tokenAwareHostPolicy.Pick (replica phase, remote buckets, j/k walk, fallback minus used).
+    rackAwareRR, tokenAwareHostPolicy.Pick (replica phase, remote buckets, j/k walk, fallback minus used)
+  — the code WITH the fixes of KF-C11-1 (the walk skips empty tiers) and KF-C11-2 (no nil host in the replica list).
 
   Conventions
     * a `Host` value stands for one `*HostInfo` OBJECT: `id` is the identity of the object (pointer),
@@ -109,12 +110,12 @@ def Pol.pick (p : Pol) (up : Nat → Bool) : Pol × List Host :=
 
 /-! ### token-aware policy -/
 
-/-- the j/k walk over the remote buckets `remote[0..]`:
-`for j < len(remote) && k < len(remote[j])` — an EMPTY bucket stops the walk (k = 0 is not < 0),
-a non-empty bucket is walked to its end (then `j++, k = 0`). Down hosts are skipped. -/
+/-- the j/k walk over the remote buckets `remote[0..]` (after the fix of KF-C11-1):
+`for j < len(remote)`: a bucket that is exhausted — or EMPTY — moves the walk to the next bucket
+(`j++, k = 0; continue`), so every bucket is walked to its end, in tier order. Down hosts are skipped. -/
 def remoteWalk (up : Nat → Bool) : List (List Host) → List Host
   | [] => []
-  | b :: rest => if b.isEmpty then [] else b.filter (fun h => up h.id) ++ remoteWalk up rest
+  | b :: rest => b.filter (fun h => up h.id) ++ remoteWalk up rest
 
 /-- the fallback phase: hosts of the fallback iterator that are not in `used`; each offered host is added to `used`. -/
 def minusUsed : List Host → List Host → List Host
@@ -133,6 +134,14 @@ def remoteBuckets (tier : Host → Nat) (maxTier : Nat) (replicas : List Host) :
 def taHead (tier : Host → Nat) (maxTier : Nat) (up : Nat → Bool) (nonlocal : Bool) (replicas : List Host) : List Host :=
   localReplicas tier up replicas ++
     (if nonlocal then remoteWalk up (remoteBuckets tier maxTier replicas) else [])
+
+/-- SPECIFICATION of the replica phases (property text: "the up replicas of the query's token in the
+nearest tier come first, then - when non-local fallback is enabled - replicas in farther tiers"):
+tier after tier (0 … maxTier with the fallback option, tier 0 only without), the up replicas of that
+tier in replica-list order. -/
+def specHead (tier : Host → Nat) (maxTier : Nat) (up : Nat → Bool) (nonlocal : Bool) (replicas : List Host) : List Host :=
+  ((List.range (if nonlocal then maxTier + 1 else 1)).map
+    (fun t => replicas.filter (fun h => tier h == t && up h.id))).flatten
 
 /-- full sequence offered by the token-aware iterator, `fallback` being the sequence of the
 fallback policy's iterator -/
@@ -183,7 +192,8 @@ def TA.setReplicas (t : TA) (ks : Nat) (tab : List (Nat × List Host)) : TA :=
 
 inductive Replicas
   | noRing                         -- no metadata / no token ring: plain fallback pick
-  | nilHost                        -- ring is empty and the keyspace has no replica table: `replicas = [nil]`
+  | emptyRing                      -- ring is empty and the keyspace has no replica table: `GetHostForToken`
+                                   -- returns nil; (fix of KF-C11-2) no replica list is built, plain fallback pick
   | hosts (l : List Host) (fromTable : Bool)
 deriving Repr
 
@@ -194,8 +204,11 @@ def TA.replicasFor (t : TA) (ks tok : Nat) : Replicas :=
   | some l => .hosts l true
   | none => match lookupTok (ringOf t.hosts) tok with
     | some h => .hosts [h] false
-    | none => .nilHost
+    | none => .emptyRing
 
+/-- result of draining an iterator: the hosts offered, or `crash` = a nil host was dereferenced. The
+repaired `Pick` has no path to `crash` (theorem `C11_tokenaware_no_crash`); the constructor stays so that
+the statement is about the result type the finding KF-C11-2 was recorded in. -/
 inductive PickResult
   | seq (l : List Host)
   | crash
@@ -213,12 +226,7 @@ def TA.pick (t : TA) (up : Nat → Bool) (σ : List Host → List Host) (rk : Op
   | some (ks, tok) =>
     match t.replicasFor ks tok with
     | .noRing => plain
-    | .nilHost =>
-      -- replicas = [nil]: round-robin's IsLocal(nil) is true and nil.IsUp() is false (skipped);
-      -- dc-/rack-aware dereference the nil host
-      if t.pol.kind == .rr then
-        if limit = 0 then (t, .seq []) else plain
-      else if limit = 0 then (t, .seq []) else (t, .crash)
+    | .emptyRing => plain
     | .hosts l fromTable =>
       let reps := if fromTable && t.shuffle then σ l else l
       let hd := taHead t.pol.tier t.pol.maxTier up t.nonlocal reps
@@ -234,7 +242,7 @@ def TA.pickSeq (t : TA) (up : Nat → Bool) (σ : List Host → List Host) (rk :
   | some (ks, tok) =>
     match t.replicasFor ks tok with
     | .noRing => .seq (t.pol.pickSeq up)
-    | .nilHost => if t.pol.kind == .rr then .seq (t.pol.pickSeq up) else .crash
+    | .emptyRing => .seq (t.pol.pickSeq up)
     | .hosts l fromTable =>
       .seq (taSeq t.pol.tier t.pol.maxTier up t.nonlocal (if fromTable && t.shuffle then σ l else l) (t.pol.pickSeq up))
 
